@@ -80,7 +80,14 @@ def main():
         code = 0
         try:
             import atexit
+            import resource
             atexit._clear()
+            os.setsid()                     # own process group: the watchdog below can kill helpers too
+            gb = int(os.environ.get("DRF_CHILD_MEM_GB", "32"))
+            try:                            # a runaway allocation must end the case, not the machine
+                resource.setrlimit(resource.RLIMIT_AS, (gb << 30, gb << 30))
+            except (ValueError, OSError):
+                pass
             try:
                 mod.run(res)
             except common.Broken as e:
@@ -103,7 +110,32 @@ def main():
         sys.stdout.flush()
         sys.stderr.flush()
         os._exit(code)
-    _, status = os.waitpid(pid, 0)
+    # watchdog: a case that never returns is a verdict too (replay = the case that was running)
+    import time as _time
+    limit = int(os.environ.get("DRF_CHILD_TIMEOUT", "3000" if tier == "quick" else "28000"))
+    t_start = _time.time()
+    hung = False
+    while True:
+        wp, status = os.waitpid(pid, os.WNOHANG)
+        if wp == pid:
+            break
+        if _time.time() - t_start > limit:
+            hung = True
+            try:
+                os.killpg(pid, signal.SIGKILL)
+            except OSError:
+                os.kill(pid, signal.SIGKILL)
+            _, status = os.waitpid(pid, 0)
+            break
+        _time.sleep(0.2)
+    if hung:
+        cur = common.get_current()
+        what = "the check's implementation run did not finish within %d s" % limit
+        if cur is not None:
+            res.violation("implementation-hangs", what + " while running this case", cur, "return", "no return")
+        else:
+            res.broken.append({"what": what})
+        return common.finish(res, level=getattr(mod, "LEVEL", "proof"))
     if os.path.exists(rfile) and os.WIFEXITED(status) and os.WEXITSTATUS(status) == 0:
         child = pickle.load(open(rfile, "rb"))
         child.proof = res.proof
